@@ -210,8 +210,10 @@ def get(variant, repo=REPO, quiet=False, keep_tree=False):
                         base = "libmpirxx.a"
                     shutil.copy(p, os.path.join(ent + ".tmp", base))
                     out[base] = os.path.join(ent, base)
+            # gmp-impl.h is copied too: it includes "config.h" and friends with quotes, which resolve next to the including file first, so
+            # harness code compiled against this entry must not pick up the generated headers of /repo's own (differently configured) tree
             for f in ["mpir.h", "config.h", "config.m4", "mpirxx.h", "gmp.h", "gmpxx.h", "fib_table.h", "mp_bases.h",
-                      "longlong.h", "fac_ui.h", "config.log", "yasm_mac.inc"]:
+                      "longlong.h", "fac_ui.h", "config.log", "yasm_mac.inc", "gmp-impl.h", "fat.h"]:
                 p = os.path.join(scratch, f)
                 if os.path.exists(p):
                     shutil.copy(os.path.realpath(p), os.path.join(ent + ".tmp", f))
